@@ -137,6 +137,15 @@ def h4(ctx):
             x, y = strip_role(r[3][0]), strip_role(r[3][1])
             whole = "AppliedId" in ((site.callee.impl_self or "") + " ".join(site.callee.gargs)) and x[0] != "field" and y[0] != "field"
             inv = (role_mentions_call(x, "add_syn") or role_mentions_call(x, "add")) and y == ("param", "x") or (role_mentions_call(y, "add_syn") or role_mentions_call(y, "add")) and x == ("param", "x")
+            # one handle space: x was produced by the same add_syn machinery (pattern_subst), so the rebuilt subterm is compared as
+            # add_syn returned it.  Canonicalising one side only compares a leader with a possibly merged-away syntactic class
+            # (explanations builds): `x` never matches and the substitution silently does nothing
+            CANON = ("find_applied_id", "proven_find_applied_id", "find_id", "unionfind_get", "semify_app_id")
+            cx = any(role_mentions_call(x, n_) for n_ in CANON)
+            cy = any(role_mentions_call(y, n_) for n_ in CANON)
+            if inv:
+                ctx.check(cx == cy, "same-handle-space", "the rebuilt subterm and x are compared in the same handle space (neither side canonicalised on its own)",
+                          "do_term_subst canonicalises only one side of the replacement test (%s vs %s): under `explanations` add_syn answers with the node's syntactic class, which differs from its leader once the class lost a union — the occurrence of x is then not recognised and b[x := t] returns b unchanged (the rule unions the redex with the un-substituted body)" % (role_str(x)[:60], role_str(y)[:60]), where_of(b, sb))
             if inv or x[0] == "field" or y[0] == "field":
                 found = True
                 ctx.check(whole and inv, "whole-invocation-equality", "the replacement test is <AppliedId as PartialEq>::eq(node's invocation, x)",
